@@ -8,6 +8,8 @@ From AnemoVerif Require Import Base Shutdown.
 
 Inductive tev :=
 | TSubmit (k : ckind) (sent : bool)       (* an API call put its request into the mailbox (or found it closed) *)
+| TIssue (k : ckind)                      (* an API call found the mailbox full and waits for room *)
+| TAdmit (k : ckind)                      (* the oldest waiting call got its request into the mailbox *)
 | TProcess (k : ckind)                    (* the loop took a request out of the mailbox *)
 | TIncoming
 | TAcceptNone
@@ -37,6 +39,12 @@ Fixpoint first_in_phase (p : hphase) (l : list handler) : option N :=
 Definition resolve (s : state) (e : tev) : option label :=
   match e with
   | TSubmit k sent => if Bool.eqb sent (negb (receiver_gone s)) then Some (Submit k) else None
+  | TIssue k => if receiver_gone s then None else Some (Issue k)
+  | TAdmit k =>
+      match first_waiting (calls s) with
+      | Some (k', _, _) => if ckind_eqb k k' then Some Admit else None
+      | None => None
+      end
   | TProcess k =>
       match first_queued (calls s) with
       | Some (k', _, _) => if ckind_eqb k k' then Some Process else None
